@@ -72,6 +72,14 @@ void Net::newPair(int a, int b)
     pendingPair[0] = a; pendingPair[1] = b;
 }
 
+void Net::newPipe(int r, int w)
+{
+    SockEnt *R = new SockEnt; R->fd = r; R->domain = AF_UNIX; R->type = SOCK_STREAM; R->kind = SockEnt::PAIR_CHILD; R->canWrite = false;
+    SockEnt *W = new SockEnt; W->fd = w; W->domain = AF_UNIX; W->type = SOCK_STREAM; W->kind = SockEnt::PAIR_CHILD; W->canRead = false;
+    socks[r] = R; socks[w] = W;
+    pendingPipes.emplace_back(r, w);
+}
+
 int Net::bind(SockEnt *s, const Addr &a)
 {
     s->local = a;
@@ -165,9 +173,9 @@ ssize_t Net::sqRead(SockEnt *s, void *buf, size_t n)
     if (c->state == Conn::FAILED) { errno = c->connErr; return -1; }
     size_t avail = c->srxAvail();
     if (avail && n) {
-        if (faultChance("io.eagain_p")) { probe("fault.io.eagain"); errno = EAGAIN; return -1; }
+        if (c->kind != 'h' && faultChance("io.eagain_p")) { probe("fault.io.eagain"); errno = EAGAIN; return -1; }
         size_t k = std::min(n, avail);
-        if (k > 1 && faultChance("io.readcap_p")) { k = ioRand(1, k); probe("fault.io.shortread"); }
+        if (k > 1 && c->kind != 'h' && faultChance("io.readcap_p")) { k = ioRand(1, k); probe("fault.io.shortread"); }
         memcpy(buf, c->srx.data() + c->srxOff, k);
         c->srxOff += k;
         if (c->srxOff == c->srx.size()) { c->srx.clear(); c->srxOff = 0; }
@@ -194,7 +202,7 @@ ssize_t Net::sqWrite(SockEnt *s, const void *buf, size_t n)
     }
     if (c->s2pBytes >= c->window) { errno = EAGAIN; return -1; }
     size_t k = std::min<uint64_t>(n, c->window - c->s2pBytes);
-    if (k > 1 && faultChance("io.shortwrite_p")) { k = ioRand(1, k); probe("fault.io.shortwrite"); }
+    if (k > 1 && c->kind != 'h' && faultChance("io.shortwrite_p")) { k = ioRand(1, k); probe("fault.io.shortwrite"); }
     if (k < n) probe("net.write_short");
     uint64_t t = std::max(nowUs() + connLat(c), c->s2pLastAt);
     c->s2pLastAt = t;
@@ -270,7 +278,11 @@ void Net::pumpPeerSend(Conn *c)
             uint64_t rel = c->poutOff - c->segBase;
             for (uint64_t b : c->segAt) if (b > rel) { k = b - rel; break; }
         }
-        k = std::min(std::min(k, room), remaining);
+        k = std::min(k, remaining);
+        if (c->nextSeg) k = std::min<uint64_t>(c->nextSeg, remaining); // a size chosen earlier that did not fit yet
+        if (k > room && k <= c->window) { c->nextSeg = k; break; }      // silly-window avoidance: wait until the whole segment fits
+        c->nextSeg = 0;
+        k = std::min(k, room);
         uint64_t pace = c->paceHi ? c->rng.range(c->paceLo, c->paceHi) : 0;
         uint64_t t = std::max(nowUs() + connLat(c), c->p2sLastAt + pace);
         c->p2sLastAt = t;
@@ -316,6 +328,13 @@ void Net::sqClose(SockEnt *s)
         hist("UNLISTEN\t%d", s->fd);
     } else if (s->kind == SockEnt::CONN && s->conn) {
         Conn *c = s->conn;
+        if (!s->canWrite) { c->sqClosed = true; if (c->sq == s) c->sq = nullptr; hist("CLOSE\t%d\t%d\tread-end", c->id, s->fd); }
+        else if (!s->canRead) {
+            hist("CLOSE\t%d\t%d\twrite-end", c->id, s->fd);
+            uint64_t t = std::max(nowUs() + connLat(c), c->s2pLastAt); c->s2pLastAt = t;
+            Seg sg; sg.at = t; sg.fin = true; c->s2p.push_back(std::move(sg));
+            at(t, [this, c] { deliverToPeer(c); });
+        } else {
         c->sqClosed = true; c->sq = nullptr;
         if (c->state == Conn::ESTABLISHED) {
             bool rst = c->srxAvail() > 0 || s->lingerReset;
@@ -326,6 +345,7 @@ void Net::sqClose(SockEnt *s)
             at(t, [this, c] { deliverToPeer(c); });
             if (c->poutOff < c->pout.size()) pumpPeerSend(c);
         } else hist("CLOSE\t%d\t%d\tunconnected", c->id, s->fd);
+        }
     } else if (s->kind == SockEnt::UDP) hist("UDPCLOSE\t%d", s->fd);
     if (pendingPair[0] == s->fd || pendingPair[1] == s->fd) { /* keep: fork may still come */ }
     socks.erase(s->fd);
@@ -358,9 +378,9 @@ int Net::collectReady(int epfd, struct epoll_event *evs, int maxev, Rng &rng)
             Conn *c = s->conn;
             if (c->state == Conn::FAILED) m |= EPOLLIN | EPOLLOUT | EPOLLERR | EPOLLHUP;
             else if (c->state == Conn::ESTABLISHED) {
-                if (c->srxAvail() || c->sqEof) m |= EPOLLIN;
+                if (s->canRead && (c->srxAvail() || c->sqEof)) m |= EPOLLIN;
                 if (c->sqRst) m |= EPOLLIN | EPOLLOUT | EPOLLERR | EPOLLHUP;
-                if (c->s2pBytes < c->window || c->peerClosed) m |= EPOLLOUT;
+                if (s->canWrite && (c->s2pBytes < c->window || c->peerClosed)) m |= EPOLLOUT;
             }
         }
         uint32_t want = kv.second.events | EPOLLERR | EPOLLHUP;
@@ -732,9 +752,18 @@ void Net::runProc(Proc *p)
 // ---------------------------------------------------------------------------------- helpers
 int Net::attachHelper(const std::string &name, const std::string &token)
 {
-    if (pendingPair[0] < 0) return -1;
-    SockEnt *A = sock(pendingPair[0]);
-    pendingPair[0] = pendingPair[1] = -1;
+    SockEnt *A = nullptr;
+    if (pendingPair[0] >= 0) { A = sock(pendingPair[0]); pendingPair[0] = pendingPair[1] = -1; pendingPipes.clear(); }
+    else if (pendingPipes.size() >= 2) { // IPC_FIFO: parent reads pipe1[0], writes pipe2[1]
+        auto p1 = pendingPipes[pendingPipes.size() - 2], p2 = pendingPipes.back();
+        pendingPipes.clear();
+        A = sock(p1.first); SockEnt *W = sock(p2.second);
+        if (!A || !W) return -1;
+        Conn *pc = newConn('h', "pipe", "helper");
+        pc->latLo = 5; pc->latHi = 50; pc->window = 1ULL << 30;
+        A->kind = SockEnt::CONN; A->conn = pc; pc->sq = A;
+        W->kind = SockEnt::CONN; W->conn = pc;
+    }
     if (!A || !A->conn) return -1;
     HelperSpec *spec = nullptr;
     for (auto &h : g_scn.helpers) if (h.token == token) spec = &h;
